@@ -10,14 +10,16 @@ seed = int(sys.argv[3]) if len(sys.argv) > 3 else 1
 if patch:
     subprocess.check_call(["git", "-C", "/repo", "apply", patch])
 try:
-    C.ensure_gen(); C.ensure_driver()
+    if not os.environ.get('VERIF_NOGEN'):
+        C.ensure_gen(); C.ensure_driver()
     p = importlib.import_module('props.' + prop.lower())
     ctx = dict(prop=prop, tier=os.environ.get("VERIF_TIER", "quick"), seed=seed, rng=C.SplitMix64(seed), replay=None, scratch=C.scratch())
     r = p.explore(ctx)
 finally:
     if patch:
         subprocess.check_call(["git", "-C", "/repo", "checkout", "--", "."])
-        C.ensure_gen()      # Generated.v must describe the unpatched tree again
+        if not os.environ.get('VERIF_NOGEN'):
+            C.ensure_gen()      # Generated.v must describe the unpatched tree again
 print(collections.Counter(v[1].split(' ')[0] for v in r['verdicts']), [t[:400] for t in r['tie']], ctx.get('go_wall_s'))
 seen = collections.Counter()
 for c, v, o in r['verdicts']:
